@@ -2114,4 +2114,160 @@ theorem run_sdLast (c : Cfg) (ops : List Op) : SdLast c (run c ops) := by
         · next hm => left; left; exact ⟨hm, s.queue, by simp [accept]⟩⟩) ops
   exact this.2
 
+/-! ### the kind of a result matches what its run did -/
+
+/-- what must accompany an event in the log -/
+def kindWitness (log : List (Nat × Ev)) (t : Nat) : Ev → Prop
+  | .succ j => j.data.fail = false ∧ (t, Ev.done j) ∈ log
+  | .err j => j.data.fail = true ∧ (t, Ev.done j) ∈ log
+  | .done j => (t, Ev.succ j) ∈ log ∨ (t, Ev.err j) ∈ log
+  | .cancelled j => (t, Ev.canc j) ∈ log
+  | _ => True
+
+def KindOK (log : List (Nat × Ev)) : Prop := ∀ t e, (t, e) ∈ log → kindWitness log t e
+
+theorem kindWitness_mono {log log' : List (Nat × Ev)} (hsub : ∀ x ∈ log, x ∈ log') {t : Nat} {e : Ev}
+    (h : kindWitness log t e) : kindWitness log' t e := by
+  cases e with
+  | succ j => exact ⟨h.1, hsub _ h.2⟩
+  | err j => exact ⟨h.1, hsub _ h.2⟩
+  | done j => exact h.elim (fun h => Or.inl (hsub _ h)) (fun h => Or.inr (hsub _ h))
+  | cancelled j => exact hsub _ h
+  | _ => trivial
+
+theorem kindOK_append {new log : List (Nat × Ev)} (h : KindOK log)
+    (hnew : ∀ x ∈ new, kindWitness (new ++ log) x.1 x.2) : KindOK (new ++ log) := by
+  intro t e hm
+  rcases List.mem_append.mp hm with h1 | h1
+  · exact hnew (t, e) h1
+  · exact kindWitness_mono (fun x hx => List.mem_append_right _ hx) (h t e h1)
+
+theorem discards_log_eq (s : State) (j : Job) (q : List Job) :
+    ∃ l, (discards s j q).log = l ++ s.log ∧ ∀ x ∈ l, ∃ k, x.2 = Ev.canc k := by
+  induction q generalizing s j with
+  | nil => exact ⟨[], rfl, by simp⟩
+  | cons k q ih =>
+    obtain ⟨l, hl, hc⟩ := ih (emit s (.canc j)) k
+    refine ⟨l ++ [(s.now, .canc j)], by simp [discards, hl], ?_⟩
+    intro x hx
+    rcases List.mem_append.mp hx with hx | hx
+    · exact hc x hx
+    · simp at hx; exact ⟨j, by rw [hx]⟩
+
+theorem startRun_kindOK (s : State) (j : Job) (h : KindOK s.log) : KindOK (startRun s j).log := by
+  have : (startRun s j).log = [(s.now, Ev.start j), (s.now, Ev.out (s.output + 1))] ++ s.log := rfl
+  rw [this]; apply kindOK_append h
+  intro x hx; simp at hx
+  rcases hx with rfl | rfl <;> simp [kindWitness]
+
+theorem startAll_kindOK (s : State) (q : List Job) (h : KindOK s.log) : KindOK (startAll s q).log := by
+  induction q generalizing s with
+  | nil => exact h
+  | cons j q ih => exact ih _ (startRun_kindOK s j h)
+
+theorem discards_kindOK (s : State) (j : Job) (q : List Job) (h : KindOK s.log) :
+    KindOK (discards s j q).log := by
+  obtain ⟨l, hl, hc⟩ := discards_log_eq s j q
+  rw [hl]; apply kindOK_append h
+  intro x hx
+  obtain ⟨k, hk⟩ := hc x hx
+  rw [hk]; simp [kindWitness]
+
+theorem settle_kindOK (c : Cfg) (s : State) (h : KindOK s.log) : KindOK (settle c s).log := by
+  apply settle_cases c s (fun s' => KindOK s'.log)
+  · exact h
+  · intros; exact startRun_kindOK _ _ h
+  · intros; exact startRun_kindOK _ _ (discards_kindOK _ _ _ h)
+  · intro _ j q r rest _ _ _
+    have : (cancelCur c s r rest).log = [(s.now, Ev.canc r.job), (s.now, Ev.cancelled r.job)] ++ s.log := rfl
+    rw [this]; apply kindOK_append h
+    intro x hx; simp at hx
+    rcases hx with rfl | rfl <;> simp [kindWitness]
+  · intro _
+    have h1 := startAll_kindOK { s with queue := [] } s.queue h
+    unfold startStopData
+    split
+    · split
+      · exact startRun_kindOK _ _ h1
+      · exact h1
+    · exact h1
+
+theorem afterCoro_kindOK (s : State) (t : Nat) (r : Run) (h : KindOK s.log) : KindOK (afterCoro s t r).log := by
+  have : (afterCoro s t r).log =
+      [(max s.now t, if r.job.data.fail then Ev.err r.job else Ev.succ r.job), (max s.now t, Ev.done r.job)]
+        ++ s.log := rfl
+  rw [this]; apply kindOK_append h
+  intro x hx; simp at hx
+  rcases hx with rfl | rfl
+  · cases hf : r.job.data.fail <;> simp [kindWitness, hf]
+  · cases hf : r.job.data.fail <;> simp [kindWitness]
+
+theorem countDown_kindOK (s : State) (h : KindOK s.log) : KindOK (countDown s).log := by
+  have : (countDown s).log = [(s.now, Ev.out (s.output - 1))] ++ s.log := rfl
+  rw [this]; apply kindOK_append h
+  intro x hx; simp at hx; rw [hx]; simp [kindWitness]
+
+theorem fire_kindOK (c : Cfg) (s : State) (t : Nat) (h : KindOK s.log) : KindOK (fire c s t).log := by
+  apply fire_cases c s t (fun s' => KindOK s'.log)
+  · intro _; exact h
+  · intro a r b _ _ _ _; exact afterCoro_kindOK s t r h
+  · intro a r b _ _ _ _
+    apply settle_kindOK
+    exact countDown_kindOK { afterCoro s t r with runs := a ++ b } (afterCoro_kindOK s t r h)
+  · intro a r b _ _ _
+    apply settle_kindOK
+    exact countDown_kindOK { s with now := max s.now t, runs := a ++ b } h
+
+theorem expire_kindOK (c : Cfg) (s : State) (d : Nat) (h : KindOK s.log) : KindOK (expire c s d).log := by
+  rw [expire_log_eq]; apply kindOK_append h
+  intro x hx
+  rcases expireNew_mem hx with rfl | ⟨r, hr, hc, rfl | rfl⟩
+  · simp [kindWitness]
+  · simp only [kindWitness]
+    apply List.mem_append_left
+    simp only [expireNew, List.mem_append]
+    exact Or.inl (expireEvents_mem.mpr ⟨r, hr, hc, Or.inr rfl⟩)
+  · simp [kindWitness]
+
+theorem put_kindOK {log : List (Nat × Ev)} (t : Nat) (j : Job) (h : KindOK log) : KindOK ((t, Ev.put j) :: log) := by
+  have : (t, Ev.put j) :: log = [(t, Ev.put j)] ++ log := rfl
+  rw [this]; apply kindOK_append h
+  intro x hx; simp at hx; rw [hx]; simp [kindWitness]
+
+theorem run_kindOK (c : Cfg) (ops : List Op) : KindOK (run c ops).log := by
+  apply run_induction c (fun s => KindOK s.log)
+  · intro t e hm; simp at hm
+  · exact settle_kindOK c
+  · exact fire_kindOK c
+  · exact expire_kindOK c
+  · intro s t h; exact h
+  · intro s x h _; exact put_kindOK _ _ h
+  · intro s h
+    unfold doStop
+    split
+    · exact h
+    · split
+      · exact h
+      · split
+        · exact put_kindOK _ _ h
+        · exact put_kindOK _ _ h
+
+/-- two different log entries that are results of the same job make its result count at least 2 -/
+theorem two_results {log : List (Nat × Ev)} {x y : Nat × Ev} {j : Job} (hx : x ∈ log) (hy : y ∈ log)
+    (hne : x ≠ y) (hxj : evRes x.2 = some j) (hyj : evRes y.2 = some j) : 2 ≤ (resJobs log).count j := by
+  induction log with
+  | nil => cases hx
+  | cons z log ih =>
+    obtain ⟨tz, ez⟩ := z
+    simp only [resJobs_cons, List.count_append]
+    rcases List.mem_cons.mp hx with rfl | hx' <;> rcases List.mem_cons.mp hy with rfl | hy'
+    · exact absurd rfl hne
+    · have : 1 ≤ (resJobs log).count j := List.count_pos_iff.mpr (by
+        simp only [resJobs, List.mem_filterMap]; exact ⟨y, hy', hyj⟩)
+      simp only [] at hxj; rw [hxj]; simp; omega
+    · have : 1 ≤ (resJobs log).count j := List.count_pos_iff.mpr (by
+        simp only [resJobs, List.mem_filterMap]; exact ⟨x, hx', hxj⟩)
+      simp only [] at hyj; rw [hyj]; simp; omega
+    · have := ih hx' hy'; omega
+
 end Edzed.OutputAsync
